@@ -69,6 +69,9 @@ type BEScenario struct {
 	Root []BEOp `json:"root,omitempty"`
 	// KeepRoot: the root's pre-loading operations stay part of the recorded history (seq / conc modes).
 	KeepRoot bool `json:"keep_root,omitempty"`
+	// OverlapExpire (C08 family): the clients only call ExpireAll, at about the same time, on entries the root
+	// wrote before; afterwards every untouched entry must carry one and the same expiry (the earliest call's).
+	OverlapExpire bool `json:"overlap_expire,omitempty"`
 }
 
 type walkDelRec struct {
@@ -134,7 +137,29 @@ type beBackend struct {
 
 func newBackend(kind string, cfg cache.Config) beBackend { return newBackendRep(kind, cfg, "") }
 
+// liveBackends: stop functions of every backend created during the current run (one run at a time per process).
+// Whatever happens to the run - also a library panic in the middle of an oracle - all of them are stopped before
+// the bubble ends: a cache that is merely dropped would be stopped by its finalizer later, outside the bubble.
+var liveBackends []func()
+
 func newBackendRep(kind string, cfg cache.Config, rep string) beBackend {
+	b := newBackendRep1(kind, cfg, rep)
+
+	stopped := false
+	stop := b.stop
+	b.stop = func() {
+		if !stopped {
+			stopped = true
+			stop()
+		}
+	}
+
+	liveBackends = append(liveBackends, b.stop)
+
+	return b
+}
+
+func newBackendRep1(kind string, cfg cache.Config, rep string) beBackend {
 	unwrapExpired := func(err error) (interface{}, time.Time, bool) {
 		v, at, ok := plainExpired(err)
 
